@@ -117,14 +117,6 @@ Proof.
   intros e o m. unfold pm2, pm1. cbv zeta. cbn [m_supplied set]. destruct e; try reflexivity.
   destruct (existsb _ o); [|reflexivity]. destruct (x_sel a) as [[[? ?] ?] ?]. reflexivity.
 Qed.
-Lemma retry_fold_streams : forall cfg post e o m0 m3, m_streams (fst (retry_fold cfg post e o m0 m3)) = m_streams m3 /\ m_supplied (fst (retry_fold cfg post e o m0 m3)) = m_supplied m3.
-Proof.
-  intros cfg post e o m0 m3. unfold retry_fold. cbv zeta.
-  match goal with |- m_streams (fst (fold_left ?g o ?a)) = _ /\ _ => apply (fold_left_pres (fun acc => m_streams (fst acc) = m_streams m3 /\ m_supplied (fst acc) = m_supplied m3) g o) end; [|split; reflexivity].
-  intros [m err] x H. cbn [fst] in *. destruct x; try exact H. destruct d; try exact H.
-  destruct (find _ _) as [[c' w]|]; [|exact H]. destruct (find_dworker _ _ _) as [k|]; [|exact H]. destruct (dw_task k); exact H.
-Qed.
-
 (* ---- the two checks ----------------------------------------------------------------------------------------------------------------------------------------------- *)
 Lemma chk_msg : forall post m c o tk x,
   get_stream m c = Some x -> sm_done x = false -> (sm_stage x <? 4)%N = true ->
@@ -391,9 +383,9 @@ Qed.
 
 Lemma pm_final_streams : forall cfg pre d e o m c,
   get_stream (pm_final cfg pre d e o m) c = get_stream (fst (fold_left (c02_obs d) o (pm2 e o m, ""%string))) c.
-Proof. intros. apply get_stream_frame. unfold pm_final. rewrite (proj1 (retry_fold_streams cfg d e o m _)). rewrite pm_clear_eq. reflexivity. Qed.
+Proof. intros. apply get_stream_frame. exact (proj1 (pm_final_frame cfg pre d e o m)). Qed.
 Lemma pm_final_supplied : forall cfg pre d e o m, m_supplied (pm_final cfg pre d e o m) = ev_supplied e ++ m_supplied m.
-Proof. intros. unfold pm_final. rewrite (proj2 (retry_fold_streams cfg d e o m _)). rewrite pm_clear_eq. cbn [m_supplied set]. unfold pm3. rewrite c02_fold_supplied, pm2_supplied. apply mon_event_supplied. Qed.
+Proof. intros. destruct (pm_final_frame cfg pre d e o m) as [_ [_ [E _]]]. cbv zeta in E. rewrite E. unfold pm3. rewrite c02_fold_supplied, pm2_supplied. apply mon_event_supplied. Qed.
 
 Lemma InvS_step : forall cfg t0 pfx e h m pre d,
   fresh_calls [] (pfx ++ [(e, h)]) -> causes_ok (pfx ++ [(e, h)]) -> InvS cfg t0 pfx m ->
